@@ -263,6 +263,30 @@ class MatrixTheory:
         st.assume(z3.ForAll([i], z3.Implies(z3.And(i >= 0, i < c.length), rd[i] == data[z3.If(X[i] < 0, X[i] + n, X[i])])))
         return r
 
+    def list_gather_by_matrix(self, base, m, st, node):
+        """x[M] for a 1-D array x and an integer index matrix M (also a flattened view of one): the result has M's shape and holds
+        x[M[s, j]] at (s, j); negative indices count from the end; every index must lie in [-len(x), len(x))"""
+        et, n, w, data = self.mcell(m, st)
+        if et != 'int' or m.depth is not None:
+            raise Unsupported('1-D array indexed by a non-integer / rank-3 array')
+        cb = self.acell(base, st)
+        if cb.etype is None or len(cb.leaves) != 1:
+            raise Unsupported('gather from an untyped / tuple list by an index matrix')
+        self.used('x[index matrix] elementwise gather (negative indices wrap)')
+        N, X = cb.length, cb.leaves[0]
+        s, c = z3.Int(fresh_name('s')), z3.Int(fresh_name('c'))
+        self.oblige(st, 'index', 'gather-indices-in-range', z3.ForAll([s, c], z3.Implies(self._rng(s, c, n, w), z3.And(data[s][c] >= -N, data[s][c] < N))), node, raises='IndexError')
+        r = self.new_mat(st, cb.etype, n, w, 'gathered', flat=m.flat)
+        rd = self.mcell(r, st)[3]
+        s2, c2 = z3.Int(fresh_name('s')), z3.Int(fresh_name('c'))
+        fact = z3.ForAll([s2, c2], z3.Implies(self._rng(s2, c2, n, w), rd[s2][c2] == X[z3.If(data[s2][c2] < 0, data[s2][c2] + N, data[s2][c2])]))
+        try:
+            fact._label = 'theory:index'
+        except Exception:
+            pass
+        st.assume(fact)
+        return r
+
     def mat_colreduce(self, m, is_max, st, node):
         """M.max(axis=0) / M.min(axis=0): per column, a value attained in that column that bounds the whole column"""
         et, n, w, data = self.mcell(m, st)
